@@ -24,21 +24,26 @@ TECH = {
     "C06": "schema conformance of the stack-DFS iterators over MIR dominance + must-facts (EXHAUST known finding)",
     "C07": "relaxation-unit guard dominance over MIR + exhaustive evaluation of the extracted round-counter skeleton "
            "(ARC-COVERAGE) + flag dataflow",
-    "C08": "loop-nesting / guard dominance of the Floyd-Warshall update and row-major layout agreement over MIR",
-    "C11": "purity, id-source taint and worker-thread structure analysis over MIR",
+    "C08": "loop-nesting / guard dominance of the Floyd-Warshall update (incl. no pruning test on the way to it) and row-major "
+           "layout agreement over MIR",
+    "C11": "purity, id-source taint, worker-thread structure analysis and bit-matrix write discipline (cell-wise, or word-OR "
+           "under a dominating equal-order check) over MIR",
     "C12": "id-source taint, monotone-flag, unsafe-obligation analysis and truth-table comparison of predicate closures with "
-           "their definitions over MIR",
+           "their definitions, single-cell bit-read discipline over MIR",
     "C13": "unsafe-operation inventory with bounds/initialisation obligations discharged by dominance facts, struct/worklist "
            "invariants, contiguity contract and closure-capture import; leak-source pairing",
     "C14": "must-pass-through admissibility analysis of generator returns + worker-thread structure + bit-matrix write "
-           "discipline over MIR",
+           "discipline + exact (non-wrapping) id arithmetic over MIR",
     "C15": "nondeterminism-source scan, seed taint, admissibility must-pass, one-insertion-per-branch analysis and integer "
-           "interval arithmetic on next_f64's constants over MIR",
+           "interval arithmetic on next_f64's constants, seed-arithmetic totality (no overflow assert on seed-derived values) over MIR",
     "C16": "shape validation of From impls (guarded insertion / validate-before-return / running maximum) over MIR",
-    "C17": "join/ownership/partition-template analysis of worker threads over MIR + seed taint",
+    "C17": "join/ownership/partition-template analysis of worker threads, path rule `a failed pair test is published before the "
+           "next one` with constant propagation, over MIR + seed taint",
     "C18": "layout agreement (row-major index, chunks(order), checked square, initialising loop) + full-scan dataflow of "
-           "eccentricities/diameter/is_connected (no restricting adaptor or sub-slice) over MIR",
-    "C19": "loop-progress (mark-before-continue) analysis + panic-site and unsafe-obligation discharge over MIR",
+           "eccentricities/diameter/is_connected (no restricting adaptor or sub-slice) + argmin-scan shape of center / selection "
+           "shape of periphery over MIR",
+    "C19": "loop-progress (mark-before-continue) analysis + panic-site and unsafe-obligation discharge + delegation check "
+           "of search over MIR",
     "C20": "field-coverage / field-wise analysis of comparison, hash and clone impls, ownership of field types, canonical "
            "length template of the bit matrix over all construction sites",
 }
